@@ -386,6 +386,12 @@ func c11backend(env sched.Env) *sched.Report {
 			stexts = append(stexts, "a h:1 myself,master - 0 0 1 connected "+a+" "+b, "a h:1 myself,master - 0 0 1 connected "+a+"\nb h:2 master - 0 0 1 connected "+b)
 		}
 	}
+	// layouts in which a slot-owning master ends up without replicas, or with replicas only
+	stexts = append(stexts,
+		"a h:1 myself,master - 0 0 1 connected 0-16383",
+		"a h:1 myself,master - 0 0 1 connected 0-16383\nb h:2 slave z 0 0 1 connected",
+		"a h:1 myself,master - 0 0 1 connected 0-16383\nb h:1 slave a 0 0 1 connected",
+		"a h:1 myself,master - 0 0 1 connected 0-8191\nc h:1 master - 0 0 2 connected 8192-16383\nb h:1 slave a 0 0 1 connected")
 	for _, text := range stexts {
 		rep.Execs++
 		sched.Progress(nil)
@@ -532,23 +538,34 @@ func c11nodes(text string, rev bool) (sig, detail string) {
 	return "", ""
 }
 
-// c11nodesRefresh lets the real slot refresh of a started proxy receive text as the CLUSTER NODES answer.
+// c11nodesRefresh lets the real slot refresh of a started proxy receive text as the CLUSTER NODES answer, under
+// each read strategy, and then routes a read and a write for a key of every 1024th slot.
 func c11nodesRefresh(text string) (sig, detail string) {
-	e := sched.RunOnce(nil, sched.Options{MaxSteps: 400000}, func() {
-		cl := cluster.New(1, 0, 1)
-		cl.Nodes[0].Addr = "h:1"
-		s := vfStartStack(cl, vfSvcConfig(0, nil, 0))
-		cl.NodesTextOverride = text
-		sched.AdvanceTime(int64(slotsRefFreq) + 1)
-		sched.WaitQuiescent()
-		s.RefreshRound()
-		c := s.NewClient("c0")
-		if _, err := c.Do("PING"); err != nil {
-			sched.Fail("proxy-stopped-serving / after a CLUSTER NODES answer", err.Error())
+	for strat := 0; strat < 3; strat++ {
+		e := sched.RunOnce(nil, sched.Options{MaxSteps: 400000}, func() {
+			cl := cluster.New(1, 0, 1)
+			cl.Nodes[0].Addr = "h:1"
+			s := vfStartStack(cl, vfSvcConfig(pbredis.ReadStrategy(strat), nil, 0))
+			cl.NodesTextOverride = text
+			sched.AdvanceTime(int64(slotsRefFreq) + 1)
+			sched.WaitQuiescent()
+			s.RefreshRound()
+			c := s.NewClient("c0")
+			for _, k := range []string{"a", "b", "key:17", "{x}y"} {
+				for _, args := range [][]string{{"GET", k}, {"SET", k, "v"}} {
+					if _, err := c.Do(args...); err != nil {
+						sched.Fail("proxy-stopped-serving / after a CLUSTER NODES answer", err.Error())
+						return
+					}
+				}
+			}
+			if _, err := c.Do("PING"); err != nil {
+				sched.Fail("proxy-stopped-serving / after a CLUSTER NODES answer", err.Error())
+			}
+		})
+		for _, f := range e.Failures {
+			return f.Sig + " / CLUSTER NODES answer with boundary slot fields", fmt.Sprintf("strategy %s, text %q: %s", pbredis.ReadStrategy(strat), text, f.Detail)
 		}
-	})
-	for _, f := range e.Failures {
-		return f.Sig + " / CLUSTER NODES answer with boundary slot fields", fmt.Sprintf("text %q: %s", text, f.Detail)
 	}
 	return "", ""
 }
